@@ -502,3 +502,11 @@ V("__getitem__: covariant and contravariant sets exchanged when the mapping is a
   "            if old_axis in self._covariant_indices:\n                contravariant_indices.append(new_axis)\n            elif old_axis in self._contravariant_indices:\n                covariant_indices.append(new_axis)", "E15", "Tensor.__getitem__")
 V("_with_array passes absolute index positions as relative ones (E15 view)", "C19", BASE, "        covariant = [i - n for i in self._covariant_indices]", "        covariant = list(self._covariant_indices)", "E15", "Tensor.__add__")
 V("_with_array takes the tensor rank of the operand instead of the result's", "C19", BASE, "        return Tensor(array, covariant=covariant, tensor_rank=self.rank - n, copy=False)", "        return Tensor(array, covariant=covariant, tensor_rank=array.ndim - n, copy=False)", "E15", "Tensor.__add__")
+
+
+# ------------------------------------------------------------------------------------------------ element class by interpretation (E16)
+V("D18/D19 regression seen by interpretation: Tensor arguments skip constructor validation", "C04", BASE, "                self._contravariant_indices = args[0]._contravariant_indices\n                self._validate_tensor()\n                return",
+  "                self._contravariant_indices = args[0]._contravariant_indices\n                return", "E16", "PointCollection")
+V("collection __getitem__ hands every tensor result to the element class", "C04", BASE, "        if result.free_indices > 0:\n            return TensorCollection(result, copy=False)\n\n        return self._element_class(result, copy=False)",
+  "        return self._element_class(result, copy=False)", "E16", "Collection")
+V("QuadricCollection[i] forgets is_dual (E16 view)", "C04", CURVE, "        return QuadricCollection.from_tensor(result, is_dual=self.is_dual)", "        return QuadricCollection.from_tensor(result)", "E16", "QuadricCollection")
